@@ -17,6 +17,7 @@ trailing text is copied unchanged.  Cell widths are counted in characters (the h
 uses ASCII names). -/
 namespace P.PegF
 open AC.Gen
+open P.Peg (natStr)
 
 def precOf : Expr → Nat
   | .operand _ => AstPrec.operand
@@ -25,7 +26,6 @@ def precOf : Expr → Nat
   | .shift .. => AstPrec.shift
   | .double .. => AstPrec.double
 
-def natStr (n : Nat) : List Char := (toString n).toList
 def intStr (i : Int) : List Char := (toString i).toList
 
 def paren (b : Bool) (l : List Char) : List Char := if b then '(' :: (l ++ [')']) else l
